@@ -15,6 +15,7 @@ from . import vloop
 from .codec import hx
 
 TICK = 0.125  # seconds per model time unit (exactly representable)
+_runs = 0
 
 
 class MemTransport(asyncio.Transport):
@@ -268,12 +269,27 @@ def run_scenario(cfg, next_op, keyparams):
                     if not t.done():
                         t.cancel()
                 await R.settle()
+                for r in R.resps:
+                    if r is not None:
+                        r.close()
+                await R.settle()
                 await R.session.close()
                 await R.settle()
         finally:
             ac.monotonic = old_mono
 
-    res, excs, quiescent = vloop.run(main)
+    # objects of earlier scenarios must not be finalised in the middle of this one
+    # (ClientResponse/Connection.__del__ release connections): collect now, not during the run
+    import gc
+    global _runs
+    _runs += 1
+    if _runs % 40 == 1:
+        gc.collect()
+    gc.disable()
+    try:
+        res, excs, quiescent = vloop.run(main)
+    finally:
+        gc.enable()
     R.loop_excs = [str(c.get("message")) for c in excs]
     R.quiescent = quiescent
     return R
